@@ -1,1 +1,46 @@
-From Olareg Require Import Base Index Reg GC.
+(* Props_C05.v — garbage collection never removes retained or recent content (model: GC.v, a mirror of
+   repoGarbageCollect).  Statements only; proofs in GCProofs.v. *)
+From Olareg Require Import Base Index Reg RegProofs GC GCProofs.
+Local Open Scope list_scope.
+
+(* Under every policy: the blob of a top-level entry that is tagged, or untagged while untagged collection
+   is off, or younger than the grace period - and that is not a referrers response - is not deleted. *)
+Theorem C05_root_kept : forall E pol now blobs i ri deleted e,
+  repo_gc E pol now blobs i = Some (ri, deleted) ->
+  In e (top i) -> ann_get RefSubject e = "" -> has_blob blobs (d_dig e) = true ->
+  (nonempty (ann_get RefName e) = true \/ gp_untagged pol = false \/ young pol now blobs (d_dig e) = true) ->
+  ~ In (d_dig e) deleted.
+Proof. exact gc_keeps_root. Qed.
+Print Assumptions C05_root_kept.
+
+(* whatever the mark phase reaches is never swept *)
+Theorem C05_marked_kept : forall pol now blobs seen inidx l ri d,
+  In d seen -> ~ In d (snd (fold_left (sweep_blob pol now blobs seen inidx) l (ri, []))).
+Proof. exact sweep_keeps_seen. Qed.
+Print Assumptions C05_marked_kept.
+
+(* every descriptor that enters the work list (roots, children of a parsed index, the referrers response of a
+   walked subject) and whose blob exists is marked *)
+Theorem C05_worklist_marked : forall E blobs fuel work subjects seen walked inidx seen' inidx',
+  (forall x, In x walked -> In x seen) ->
+  mark E blobs fuel work subjects seen walked inidx = Some (seen', inidx') ->
+  forall d, In d work -> has_blob blobs (d_dig d) = true -> In (d_dig d) seen'.
+Proof. exact mark_marks_work. Qed.
+Print Assumptions C05_worklist_marked.
+
+(* a blob younger than the grace period that is not an index entry (the layers uploaded before the
+   manifest of an image) is never swept *)
+Theorem C05_recent_kept : forall pol now blobs seen inidx l ri d,
+  young pol now blobs d = true -> ~ In d inidx ->
+  ~ In d (snd (fold_left (sweep_blob pol now blobs seen inidx) l (ri, []))).
+Proof. exact sweep_keeps_young. Qed.
+Print Assumptions C05_recent_kept.
+
+(* a collection only removes blobs: whatever stays is unchanged, so content integrity (C01) is preserved
+   across collections, restarts and ageing *)
+Theorem C05_only_removes : forall E pol now rp d be,
+  assoc d (r_blobs (gc_repo E pol now rp)) = Some be -> assoc d (r_blobs rp) = Some be.
+Proof. exact gc_repo_blobs_sub. Qed.
+Theorem C05_integrity_preserved : forall cfg pol E s g, BlobsOK E s -> BlobsOK E (fst (gstep cfg pol E s g)).
+Proof. exact gstep_blobs_ok. Qed.
+Print Assumptions C05_integrity_preserved.
